@@ -650,7 +650,14 @@ def run_refuse(case, stt):
         "outer_arr": lambda: f.outer(x, a), "at": lambda: f.at(a, [0], 1), "reduceat": lambda: f.reduceat(a, [0, 2]), "matmul": lambda: a @ x.T,
         "rmatmul": lambda: x.T @ a, "np.matmul": lambda: np.matmul(a, x.T), "np.sum": lambda: np.sum(a),
         "max": lambda: np.maximum.reduce(a), "np.prod": lambda: np.multiply.reduce(a),
+        # matmul's siblings (generalised ufuncs that contract an axis away): the result no longer has the signal's axes
+        "vecdot": lambda: np.vecdot(a, a), "vecdot_arr": lambda: np.vecdot(a, x), "vecdot_rarr": lambda: np.vecdot(x, a),
+        "matvec": lambda: np.matvec(a, x[0]),
+        "vecmat": lambda: np.vecmat(a, np.ones((3, 3), x.dtype)), "vecmat_rarr": lambda: np.vecmat(x[:, 0], a),
     }
+    if case["what"].split("_")[0] in ("vecdot", "matvec", "vecmat") and not hasattr(np, case["what"].split("_")[0]):
+        stt.label("gufunc_not_in_this_numpy")
+        return
     must_raise(case["what"] + " on a signal", table[case["what"]], (TypeError,))
     check(same_bits(a.data, x), "a refused {} changed the signal", case["what"])
     stt.nt()
@@ -660,7 +667,8 @@ def run_refuse(case, stt):
 refuse_case = st.fixed_dictionaries({"dtype": st.sampled_from(["f8", "c16", "i8", "f4"]), "cls": st.sampled_from(["Signal", "RadioSignal", "BasebandSignal",
                                                                                                                "IntensitySignal"]),
                                      "what": st.sampled_from(["reduce", "reduce_axis", "accumulate", "outer", "outer_arr", "at", "reduceat", "matmul",
-                                                              "rmatmul", "np.matmul", "np.sum", "max", "np.prod"])})
+                                                              "rmatmul", "np.matmul", "np.sum", "max", "np.prod", "vecdot", "vecdot_arr", "vecdot_rarr", "matvec",
+                                                              "vecmat", "vecmat_rarr"])})
 
 SUBS = [
     EnumSub("ufunc_enumeration", enum_ufuncs, replay_ufunc,
@@ -682,6 +690,6 @@ SUBS = [
         "nothing; non-trivial = >= 2 steps", quick=1500, thorough=30000, pieces_quick=3),
     Sub("array_conversion", conv_case(), run_conv, "np.asarray/np.asanyarray/np.array(copy=None/True/False) with and without dtype on NumPy- and "
         "Dask-backed signals; non-trivial = dtype given", quick=800, thorough=8000),
-    Sub("refusals", refuse_case, run_refuse, "reduce/accumulate/outer/at/reduceat/matmul/np.sum on signals raise TypeError; all non-trivial",
+    Sub("refusals", refuse_case, run_refuse, "reduce/accumulate/outer/at/reduceat/matmul/np.sum and matmul's generalised-ufunc siblings (vecdot/matvec/vecmat) on signals raise TypeError; all non-trivial",
         quick=300, thorough=3000),
 ]
